@@ -307,9 +307,10 @@ func (s *Store) Restrict(t *Term, p *Term) *Term {
 	return t
 }
 
-// RestrictDeep resolves, anywhere inside t, the selections (ite) whose condition is decided by the assumption p.
+// RestrictDeep resolves, anywhere inside t, the selections (ite) whose condition is decided by the assumption p or by
+// the conditions of the selections they are nested in (path-sensitive: inside the else-arm of ite(c, ..) c is false).
 func (s *Store) RestrictDeep(t *Term, p *Term) *Term {
-	if t == nil || p == nil || p == s.True {
+	if t == nil || p == nil {
 		return t
 	}
 	hasIte := false
@@ -321,49 +322,59 @@ func (s *Store) RestrictDeep(t *Term, p *Term) *Term {
 	if !hasIte {
 		return t
 	}
-	memo := map[*Term]*Term{}
-	decided := map[*Term]int{} // condition -> 1 true, 2 false, 3 open
-	var rec func(t *Term) *Term
-	rec = func(t *Term) *Term {
-		if r, ok := memo[t]; ok {
+	type key struct{ t, p *Term }
+	memo := map[key]*Term{}
+	decided := map[key]int{} // (condition, assumption) -> 1 true, 2 false, 3 open
+	budget := 4000
+	var rec func(t, p *Term) *Term
+	rec = func(t, p *Term) *Term {
+		if t.K != KOp {
+			return t
+		}
+		k := key{t, p}
+		if r, ok := memo[k]; ok {
 			return r
 		}
 		var r *Term
-		switch {
-		case t.K != KOp:
-			r = t
-		case t.Op == "ite":
+		if t.Op == "ite" {
 			c := t.Args[0]
-			d := decided[c]
+			dk := key{c, p}
+			d := decided[dk]
 			if d == 0 {
-				switch {
-				case s.Implies(p, c):
-					d = 1
-				case s.Implies(p, s.Not(c)):
-					d = 2
-				default:
-					d = 3
+				d = 3
+				if p != s.True && budget > 0 {
+					budget--
+					switch {
+					case s.Implies(p, c):
+						d = 1
+					case s.Implies(p, s.Not(c)):
+						d = 2
+					}
 				}
-				decided[c] = d
+				decided[dk] = d
 			}
 			switch d {
 			case 1:
-				r = rec(t.Args[1])
+				r = rec(t.Args[1], p)
 			case 2:
-				r = rec(t.Args[2])
+				r = rec(t.Args[2], p)
 			default:
-				na := []*Term{rec(t.Args[0]), rec(t.Args[1]), rec(t.Args[2])}
+				pc, pn := p, p
+				if budget > 0 {
+					pc, pn = s.Canon(s.And(p, c)), s.Canon(s.And(p, s.Not(c)))
+				}
+				na := []*Term{rec(c, p), rec(t.Args[1], pc), rec(t.Args[2], pn)}
 				if na[0] == t.Args[0] && na[1] == t.Args[1] && na[2] == t.Args[2] {
 					r = t
 				} else {
 					r = s.Op("ite", t.Ty, na...)
 				}
 			}
-		default:
+		} else {
 			changed := false
 			na := make([]*Term, len(t.Args))
 			for i, a := range t.Args {
-				na[i] = rec(a)
+				na[i] = rec(a, p)
 				if na[i] != a {
 					changed = true
 				}
@@ -380,8 +391,8 @@ func (s *Store) RestrictDeep(t *Term, p *Term) *Term {
 				r = s.rebuild(t, na)
 			}
 		}
-		memo[t] = r
+		memo[k] = r
 		return r
 	}
-	return rec(t)
+	return rec(t, p)
 }
